@@ -55,6 +55,10 @@ structure Msg where
   block1 : Option Blk
   block2 : Option Blk
   payload : Bytes
+  /-- `message._original_request_path`: the Uri-Path the request arrived with, which a `Site` leaves
+  on the path-stripped copy it hands to the resource (resource.py:400-444); `none` when the resource
+  is given the message directly (no such attribute) -/
+  origPath : Option (List Bytes) := none
 deriving Repr, DecidableEq
 
 /-- a response message -/
@@ -81,15 +85,17 @@ Block1/Block2 are not in `opts` to begin with -/
 def cacheKeyOpts (opts : List Opt) : List Opt :=
   opts.filter (fun o => !(o.1 == OBSERVE || isNoCacheKey o.1))
 
-/-- `_extract_block_key`: `(remote.blockwise_key, code, (code, cache-key options))` -/
+/-- `_extract_block_key`: `(remote.blockwise_key, code, getattr(message, "_original_request_path",
+None), (code, cache-key options))` -/
 structure Key where
   rkey : Nat
   code : Nat
+  path : Option (List Bytes)
   opts : List Opt
 deriving Repr, DecidableEq
 
 def blockKey (m : Msg) : Key :=
-  { rkey := m.remote.key, code := m.code, opts := cacheKeyOpts m.opts }
+  { rkey := m.remote.key, code := m.code, path := m.origPath, opts := cacheKeyOpts m.opts }
 
 -- Block1 ---------------------------------------------------------------------------------
 
@@ -101,9 +107,10 @@ deriving Repr, DecidableEq
 /-- the size test of `_append_request_block` (message.py:450-461), which is also
 `BlockwiseTuple.is_valid_for_payload_size` (optiontypes.py:194-203) that `feed_and_take` applies to
 block 0: a block with the more flag has exactly the block size (BERT: a multiple of 1024); a final
-block of a size exponent below 7 is at most one block long (a final BERT block is not constrained) -/
+block of a size exponent below 7 is at most one block long (a final BERT block is not constrained).
+A BERT block with the more flag is one or more whole blocks -- not none (`payloadsize > 0`). -/
 def sizeOk (b : Blk) (len : Nat) : Bool :=
-  if b.more then (len == b.size || (b.szx == 7 && len % b.size == 0))
+  if b.more then (len == b.size || (b.szx == 7 && len % b.size == 0 && decide (0 < len)))
   else (b.szx == 7 || decide (len ≤ b.size))
 
 /-- `self._append_request_block(next_block)` with `b = next_block.opt.block1`:
